@@ -1695,6 +1695,15 @@ pub open spec fn tileset_validated(src: Tileset<RawPixels>, dst: Tileset<Pixels>
     &&& dst.tile_size == src.tile_size && dst.base_index == src.base_index && dst.name == src.name && dst.external_file == src.external_file
 }
 """},
+        {"kind": "fn", "file": "tileset", "name": "from_raw", "impl_of": "TilesetId", "ret": "r", "ensures": "        r.0 == value,"},
+        {"kind": "fn", "file": "tileset", "name": "new", "key": "TilesetsById::new", "impl_of": "TilesetsById", "impl_filter": r"impl<P>\s+TilesetsById<P>", "impl_header": "<P> TilesetsById<P>", "ret": "r",
+         "ensures": "        r.0@ == Map::<TilesetId, Tileset<P>>::empty(),"},
+        {"kind": "fn", "file": "tileset", "name": "add", "key": "TilesetsById::add", "impl_of": "TilesetsById", "impl_filter": r"impl<P>\s+TilesetsById<P>", "impl_header": "<P> TilesetsById<P>",
+         "ensures": "        // a later tileset chunk with the same id replaces the earlier one\n        final(self).0@ == old(self).0@.insert(TilesetId(tileset.id), tileset),"},
+        {"kind": "fn", "file": "tileset", "name": "get", "key": "TilesetsById::get", "impl_of": "TilesetsById", "impl_filter": r"impl<P>\s+TilesetsById<P>", "impl_header": "<P> TilesetsById<P>", "ret": "r",
+         "ensures": "        (r is Some) == self.0@.contains_key(TilesetId(id)), r is Some ==> *(r->0) == self.0@[TilesetId(id)],"},
+        {"kind": "fn", "file": "tileset", "name": "is_empty", "key": "TilesetsById::is_empty", "impl_of": "TilesetsById", "impl_filter": r"impl<P>\s+TilesetsById<P>", "impl_header": "<P> TilesetsById<P>", "ret": "r",
+         "ensures": "        r == (self.0@.dom().len() == 0),"},
         {"kind": "fn", "file": "tileset", "name": "validate", "key": "TilesetsById::validate", "impl_of": "TilesetsById", "impl_filter": r"impl\s+TilesetsById<RawPixels>", "impl_header": "TilesetsById<RawPixels>", "ret": "r",
          "rules": ["R1", "R6", "R11"],
          "body_rewrites": [("for (id, tileset) in self.0.into_iter() {", "for (id, tileset) in it: self.0.into_iter() {")],
